@@ -148,7 +148,7 @@ DEFS += [
     # ---------------------------------------------------------------- more shapes of generated code (thorough tier unless noted)
     # ten ranges to one non-accepting target: the binary-search table shape inside a step harness (also in a right context)
     flat('c02_table_shape', [R(cat(cset(rng('a', 'b'), rng('d', 'e'), rng('g', 'h'), rng('j', 'k'), rng('m', 'n'), rng('p', 'q'), rng('s', 't'), rng('v', 'w'), rng('y', 'z'),
-                                        rng('0', '4'), rng('6', '9')), c('!'))), R(cset(rng('a', 'z')))], ['C02', 'C13', 'C09'], N=2, m=1, Nt=3, unwind=12),
+                                        rng('0', '4'), rng('6', '9')), c('!'))), R(cset(rng('a', 'z'), rng('0', '9')))], ['C02', 'C13', 'C09'], N=2, m=1, Nt=3, unwind=12),
     flat('c04_table_in_ctx', [R(c('x'), ctx=cat(cset(rng('a', 'b'), rng('d', 'e'), rng('g', 'h'), rng('j', 'k'), rng('m', 'n'), rng('p', 'q'), rng('s', 't'), rng('v', 'w'), rng('y', 'z'),
                                                      rng('0', '4'), rng('6', '9')), c('!'))), R(c('x')), R(ANY)], ['C04'], N=3, m=1, unwind=12, tier='thorough', Nt=3),
     # a state with more than 8 range transitions AND character transitions on code points at the start / end / inside of those ranges
